@@ -104,7 +104,7 @@ def gen(rec, rnd, thorough):
             rec.conn(h + sfx, auto, "after-caller-modified-previous-result")
     # rejection set
     for h in hosts[:2]:
-        for bad in ("0", "65535", "65536", "99999", "-1", "abc", "", "4x", "70000"):
+        for bad in ("0", "65535", "65536", "99999", "-1", "abc", "", "4x", "70000", "44:818", "0:44818", "44818:", ":44818", "1:2:3"):
             rec.conn("%s:%s/bp/1" % (h, bad), False, "bad-tcp-port")
         for bad in ("256", "300", "1000", "99999", "abc", "1.2.3", "1.2.3.256", "1.2.3.4.5", "x.y.z.w", "-1"):
             rec.conn("%s/bp/%s" % (h, bad), False, "bad-link")
